@@ -1009,6 +1009,16 @@ _STRIPPABLE = ("add_inplace", "sub_inplace", "mul_inplace", "mean_inplace", "div
                "reserve", "reserve_exact", "shrink_to_fit", "shrink_to", "hadamard", "clamp")
 
 
+_REORDERING = ("reverse", "swap", "rotate_left", "rotate_right", "sort", "sort_by", "sort_by_key", "sort_unstable", "sort_unstable_by", "fill", "clear", "truncate",
+               "remove", "swap_remove", "insert", "drain", "retain", "dedup", "pop", "split_off", "resize")
+
+
+def list_tampering(t):
+    """names of in-place list operations (reordering / dropping / overwriting entries) recorded anywhere in the term t"""
+    return sorted({str(u[2]).split("@")[0].rsplit("::", 1)[-1] for u in find_terms(t, lambda u_: u_[0] == "upd")
+                   if str(u[2]).split("@")[0].rsplit("::", 1)[-1] in _REORDERING})
+
+
 def strip_upd(t):
     """drop `upd` wrappers of the kinds listed in _STRIPPABLE (and field writes) for structural comparison"""
     if isinstance(t, tuple):
